@@ -185,7 +185,8 @@ def st_locality(be, hiN):
         {'be': st.just(be), 'N': st.just(N), 'gate': gen.st_gate(N), 'ops': st.lists(gen.st_pauli(N), min_size=1, max_size=6)}))
 
 
-TORCH_CONFIGS = [('CliffordCircuit', 'orig', 'none'), ('CliffordCircuit', 'copy', 'none'), ('CliffordCircuit', 'compose', 'none')]
+TORCH_CONFIGS = [('CliffordCircuit', var, comp) for var in ('orig', 'copy', 'copy-compiled', 'compose') for comp in ('none', 'layers', 'circuit')
+                 if not (var == 'copy-compiled' and comp == 'none')]
 TORCH_KINDS = ['fmap', 'bmap']   # torch has no named-gate constructors
 
 
@@ -199,7 +200,7 @@ FACETS = [
     Facet('np/circuit-configs', f_circuit, strategy=lambda t: st_case('np', 4 if t == 'quick' else 5, 10 if t == 'quick' else 14, CONFIGS),
           examples={'quick': 2400, 'thorough': 100000}, shards={'quick': 4, 'thorough': 16}),
     Facet('np/locality', f_locality, strategy=lambda t: st_locality('np', 5), examples={'quick': 1500, 'thorough': 40000}, shards={'quick': 1, 'thorough': 4}),
-    Facet('torch/circuit-uncompiled', f_circuit, strategy=lambda t: st_case_torch(4, 8), examples={'quick': 300, 'thorough': 10000},
+    Facet('torch/circuit-configs', f_circuit, strategy=lambda t: st_case_torch(4, 8), examples={'quick': 300, 'thorough': 10000},
           shards={'quick': 2, 'thorough': 8}, backend='torch'),
 ]
 
